@@ -41,5 +41,15 @@ pub mod stream_header;
 /// QUIC variable-length integer.
 pub mod varint;
 
+/// Verification hooks (coverage counters only; never used for any decision).
+#[cfg(feature = "verif-hooks")]
+pub mod verif_hooks {
+    use std::sync::atomic::AtomicU64;
+
+    /// Number of asynchronous read futures (`GetVarint`/`GetBuffer`) dropped
+    /// after having consumed some, but not all, of the bytes they need.
+    pub static PARTIAL_READ_DROPS: AtomicU64 = AtomicU64::new(0);
+}
+
 /// Application Layer Protocol Negotiation for WebTransport connections.
 pub const WEBTRANSPORT_ALPN: &[u8; 2] = b"h3";
